@@ -793,6 +793,10 @@ void ServerConn::handleSaslStart(const QDomElement &el, bool v2)
             iter = "-4096";
         } else if (sq == QLatin1String("iter_nan")) {
             iter = "many";
+        } else if (sq == QLatin1String("iter_huge")) {
+            // a count nobody can compute in the lifetime of a login (and one that does not fit a signed 32-bit integer)
+            static const char *huge[] = { "2147483648", "3000000000", "4294967295", "4294967296" };
+            iter = huge[srv->rng.uniform(4)];
         } else if (sq == QLatin1String("empty_salt")) {
             s = "";
         }
@@ -854,6 +858,37 @@ void ServerConn::handleSaslResponse(const QDomElement &el, bool v2)
             }
             const QString sq = p.quirk("scram");
             const bool tampered = sq.startsWith(QLatin1String("nonce_")) || sq.startsWith(QLatin1String("iter")) || sq.startsWith(QLatin1String("no_")) || sq == QLatin1String("empty_salt");
+            if (sq == QLatin1String("iter_huge")) {
+                // the client answered although it cannot possibly have derived the key: a server that does NOT know the
+                // password tries the salted passwords an implementation slip could have produced (no key, zero key)
+                const int hl = simcrypto::digestLen(alg);
+                const QByteArray authMessage = cFirstBare + "," + sFirst + "," + withoutProof;
+                for (const QByteArray &degenerate : { QByteArray(), QByteArray(hl, '\0') }) {
+                    const QByteArray ck = simcrypto::hmac(alg, degenerate, "Client Key");
+                    const QByteArray sk = simcrypto::hash(alg, ck);
+                    const QByteArray sg = simcrypto::hmac(alg, sk, authMessage);
+                    QByteArray ex(ck);
+                    for (int i = 0; i < ex.size(); ++i) {
+                        ex[i] = ex[i] ^ sg[i];
+                    }
+                    if (ex == proof) {
+                        srv->conformance << QStringLiteral("SCRAM: client proof does not depend on the password (degenerate salted password)");
+                        const QByteArray v = "v=" + simcrypto::hmac(alg, simcrypto::hmac(alg, degenerate, "Server Key"), authMessage).toBase64();
+                        // no knowledge of the password was proved by this signature
+                        serverProofDelivered = false;
+                        if (saslIsV2 || p.scramFinalInSuccess) {
+                            saslSuccess(v);
+                        } else {
+                            saslStep = 3;
+                            saslChallenge(v);
+                        }
+                        return;
+                    }
+                }
+                srv->say(QStringLiteral("server: client answered a server-first with an uncomputable iteration count"));
+                saslFailure("not-authorized");
+                return;
+            }
             if (tampered) {
                 // the client must not have answered a server-first it has to reject
                 srv->say(QStringLiteral("server: client answered an invalid server-first (%1)").arg(sq));
